@@ -252,6 +252,14 @@ def family_e3(thorough: bool = False):
                     jwire.mkrow("triple", {"s": ("iri", 1, 1), "p": ("iri", 1, 1),
                                            "o": ("literal", sbad, None, 1)})]
             yield "hostile-strings", jwire.write_delimited([jwire.enc_frame(rows)])
+    # a stream name made of dots (names with a hierarchy: loggers, attribute paths, file paths)
+    for sep in (".", "/", ":", "\\"):
+        for n in (5000, 30000):
+            on = jwire.mkrow("options", {**opts, "stream_name": ("a" + sep) * n})
+            tr_n = jwire.mkrow("triple", {"s": ("bnode", "a"), "p": ("bnode", "b"),
+                                          "o": ("bnode", "c")})
+            yield "separator-stream-name", jwire.write_delimited([jwire.enc_frame([on, tr_n])])
+            yield "separator-stream-name", jwire.enc_frame([on, tr_n])
     # strings that mean something to a formatting routine (%-directives with a huge width,
     # str.format fields): in every string-valued field, and as a prefix label that is declared
     # twice with different IRIs
